@@ -925,7 +925,9 @@ void WrLstLine(char const* Line) {
             LLength = 1;
         } else {
             blen = 0;
-            for (z = 0; z < (int)strlen(Line); z++) {
+            /* a tab needs up to eight places: stop expanding when the buffer is full */
+
+            for (z = 0; (z < (int)strlen(Line)) && (blen + 8 <= (int)sizeof(bbuf)); z++) {
                 if (Line[z] == Char_HT) {
                     memset(bbuf + blen, ' ', 8 - (blen & 7));
                     blen += 8 - (blen & 7);
